@@ -35,7 +35,7 @@ Record sst := {
   s_lw : lws;
   s_out : list (list nat * bool);   (* finished logical lines: counted lines (ascending), directive? *)
   s_wf : bool;                      (* no stray backslash / unterminated literal so far *)
-  s_c20 : bool;                     (* class: a slash is pending at a backslash-newline *)
+  s_c20 : bool;                     (* class: an operator slash directly before a backslash-newline *)
   s_c22 : bool                      (* class: a physical line inside a literal holds only white space, and not exactly one blank *)
 }.
 
@@ -73,6 +73,10 @@ Definition survive (k : nat) (is_hash : bool) (s : sst) : sst :=
   {| s_q := s_q s; s_sl := s_sl s; s_ms := mark k (s_ms s);
      s_d := match s_d s with dNone => if is_hash then dDir else dSrc | d => d end;
      s_open := s_open s; s_lw := s_lw s; s_out := s_out s; s_wf := s_wf s; s_c20 := s_c20 s; s_c22 := s_c22 s |}.
+
+(* class "slash-before-splice": a slash that turns out NOT to open a comment is
+   separated from the next character by a backslash-newline *)
+Definition far_slash (n : nat) (s : sst) : sst := set_c20 (s_c20 s || negb (Nat.eqb (s_sl s) n)) s.
 
 (* outside comments and literals *)
 Definition s_top (n : nat) (s : sst) (c : cls) : sst :=
@@ -114,7 +118,7 @@ Definition sstep (n : nat) (s : sst) (c : cls) : sst :=
       match c with
       | cSl => set_q sLC s
       | cSt => set_q sBlk s
-      | _ => s_top n (survive (s_sl s) false s) c       (* the pending slash was an operator *)
+      | _ => s_top n (survive (s_sl s) false (far_slash n s)) c       (* the pending slash was an operator *)
       end
   | sLC => s
   | sBlk => match c with cSt => set_q sBlkStar s | _ => s end
@@ -149,11 +153,11 @@ Definition s_eol (n : nat) (continued : bool) (s : sst) : sst :=
   let s := {| s_q := s_q s; s_sl := s_sl s; s_ms := s_ms s; s_d := s_d s; s_open := s_open s; s_lw := lw0;
               s_out := s_out s; s_wf := s_wf s; s_c20 := s_c20 s;
               s_c22 := s_c22 s || (negb (marked n (s_ms s)) && match s_lw s with lwM => true | _ => false end) |} in
-  if continued then keep_open (set_c20 (s_c20 s || sm_eqb (s_q s) sSlash) s)
+  if continued then keep_open s
   else
     match s_q s with
     | sTop | sLC => end_logical s
-    | sSlash => end_logical (survive (s_sl s) false s)
+    | sSlash => end_logical (survive (s_sl s) false (far_slash n s))
     | sBlk => keep_open s
     | sBlkStar => keep_open (set_q sBlk s)
     | sDQ | sDQe | sSQ | sSQe => end_logical (not_wf s)          (* unterminated literal *)
